@@ -134,9 +134,11 @@ def check(case):
         if msg:
             raise Violation("degrees", f"returned graph: {msg}")
         if not R.journal:
-            # no journal (working copy not observable): final-state oracle only
+            # no journal (working copy not observable, or edited in a way that is not split into swaps here): final-state
+            # oracle only.  Clause (C) can then not be separated from the open finding (new corner edges inherit the
+            # motif id of the motif they leave, see known_findings.json): it is asserted only when that finding is closed.
             msg = M.motif_shapes_ok(final, case)
-            if msg:
+            if msg and not open_finding(M.FINDING_ID):
                 raise Violation("motif-shape", f"returned graph: {msg}")
             swaps = 1 if final != R.before[1] else 0
             classes.add("no_journal")
